@@ -32,8 +32,20 @@ def payoff_fn(case):
 
 
 def expected_arrays(case, ledger, counts, level, offsets=None):
+    lo, hi = (offsets or {}).get(level, 0), counts.get(level, 0)
+    rows = ledger.samples.get(level, [])[lo:hi]
+    if case["payoff"] == "barrier":
+        # down-and-out call on the path (0, mid, terminal) of each component, each with its own knock-out status
+        k, n, df, bar = case["strike"], case["notional"], case["df"], case["barrier"]
+        mids = ledger.mids.get(level, [])[lo:hi]
+
+        def g2(x, mid):
+            return 0.0 if min(0.0, mid, x) < bar else n * max(x - k, 0.0) * df
+
+        f = np.array([g2(a, mf) for (a, _), (mf, _) in zip(rows, mids)], dtype=float)
+        c = np.array([g2(b, mc) if level > 0 else 0.0 for (_, b), (_, mc) in zip(rows, mids)], dtype=float)
+        return f, c, rows
     g = payoff_fn(case)
-    rows = ledger.samples.get(level, [])[(offsets or {}).get(level, 0): counts.get(level, 0)]
     f = np.array([g(a) for a, _ in rows], dtype=float)
     c = np.array([g(b) if level > 0 else 0.0 for _, b in rows], dtype=float)
     return f, c, rows
@@ -142,20 +154,28 @@ def check_record(case, rec):
             stats["mean_level_l"].append(sf.mean())
             stats["var_level_l"].append(np.mean(sf ** 2) - sf.mean() ** 2)
             c4 = np.mean((d2 - m1) ** 4)
-            stats["kurtosis"].append(c4 / max(1.0, np.mean(d2 ** 2) - m1 ** 2) ** 2)
-            mags.append(1.0 + max(float(np.abs(sf).max()), float(np.abs(sc_).max())))
+            # kurtosis = fourth central moment / variance^2 (nan = "not decided": no dispersion beyond round-off)
+            big = max(float(np.abs(sf).max()), float(np.abs(sc_).max()))
+            stats["kurtosis"].append(c4 / var ** 2 if var > 1e-18 * big ** 2 else float("nan"))
+            mags.append(big + 1e-300)
             cost_l = law["cost0"] * 2.0 ** (law["gamma"] * l)
             stats["cl"].append(cost_l)
-        scale = 1.0 + abs(price_ref) + abs(case["notional"]) * (abs(law["base"]) + law["s_base"])
+        scale = abs(price_ref) + abs(case["notional"]) * (abs(law["base"]) + law["s_base"])  # (relative: no absolute floor)
         for k, ref in (stats or {}).items():
             got = snap["results"][k]
             ref = np.array(ref, dtype=float)
             power = {"ml": 1, "mean_level_l": 1, "vl": 2, "var_level_l": 2, "kurtosis": 4}.get(k)
             # moments are formed from non-centred sums: cancellation error ~ 1e-16 * n * magnitude^power per level (control
             # variates with prices far from the controls' means shift the adjusted samples by hundreds)
-            tol = 1e-9 * (scale ** (4 if k == "kurtosis" else 2)) + 1e-11 * np.array(mags[:len(ref)]) ** power \
-                if k != "cl" else 1e-9 * (1 + ref)
-            if got.shape != ref.shape or not np.all(np.abs(got - ref) <= tol + 1e-9 * np.abs(ref)):
+            if k == "cl":
+                tol = 1e-9 * (1 + ref)
+            elif k == "kurtosis":
+                # (dimensionless: the cancellation error of the fourth moment is divided by the squared variance)
+                v2 = np.maximum(np.array(stats["vl"][:len(ref)], dtype=float), 1e-300) ** 2
+                tol = (1e-9 * scale ** 4 + 1e-11 * np.array(mags[:len(ref)]) ** 4) / v2
+            else:
+                tol = 1e-9 * scale ** power + 1e-11 * np.array(mags[:len(ref)]) ** power
+            if got.shape != ref.shape or not np.all((np.abs(got - ref) <= tol + 1e-9 * np.abs(ref)) | np.isnan(ref)):
                 out.append(Violation(f"C05/statistic-differs-from-the-samples/{k}",
                                      f"{where}: reported {got}, recomputed from the simulated samples {ref}; {detail}"))
                 return out
@@ -218,7 +238,7 @@ def classify(case):
 
 @st.composite
 def _strat(draw, tier):
-    case = draw(mlmc_case(tier))
+    case = draw(mlmc_case(tier, path_dependent=True))
     # a quarter of the runs are the *second* pricing on one Engine object (the first one, looser or tighter, is
     # discarded): "all runs of the adaptive algorithm" includes those of an engine that has priced before
     case["priced_before"] = draw(st.sampled_from([None, None, None, 0.4, 3.0]))
